@@ -990,6 +990,54 @@ fn check_e2e(cx: &mut Cx, t: &T, binds: &Binds)
 		}
 	}
 	cx.report.hit(&format!("e2e included file: {multi_ok} of 12 variants assemble"));
+
+	// the names come from the INCLUDER: it declares them `.global`, the included file `.import`s them and holds the statements; the
+	// definitions stand above or below the `.include` (and one level further up, through a file in between)
+	let decls: String = names.iter().map(|(n, _)| format!(".global {n};\n")).collect();
+	let imports: String = names.iter().map(|(n, _)| format!(".import {n};\n")).collect();
+	let defs = format!("{defs_now}{defs_later}");
+	let single_declared_ok = results[3].1.is_ok();
+	let variants: [(&str, String, Option<String>, bool); 5] = [
+		("imported, defined above the include", format!(".addr 0x100;\n{defs}{decls}.include \"inc.asm\";\n"), None, true),
+		("imported, declared above and defined below the include", format!(".addr 0x100;\n{decls}.include \"inc.asm\";\n{defs}"), None, single_declared_ok),
+		("imported, declared above, some defined above and some below the include", format!(".addr 0x100;\n{decls}{defs_now}.include \"inc.asm\";\n{defs_later}"), None, single_declared_ok),
+		("imported through a file in between, defined above", format!(".addr 0x100;\n{defs}{decls}.include \"mid.asm\";\n"), Some(format!("{imports}.include \"inc.asm\";\n")), true),
+		("imported through a file in between, defined below", format!(".addr 0x100;\n{decls}.include \"mid.asm\";\n{defs}"), Some(format!("{imports}.include \"inc.asm\";\n")), false),
+	];
+	for (vname, main, mid, must) in variants.iter()
+	{
+		std::fs::write(dir.join("main.asm"), main).unwrap();
+		std::fs::write(dir.join("inc.asm"), format!("{imports}{stmts}")).unwrap();
+		if let Some(m) = mid {std::fs::write(dir.join("mid.asm"), m).unwrap();}
+		let path = dir.join("main.asm");
+		let r = guarded(||
+		{
+			let directives = DirectiveList::generate();
+			let mut ctx = Context::new(&Arm6M, &directives);
+			drop(ctx.assemble(main.as_bytes(), path.clone()));
+			if ctx.close_segment().is_err() || !ctx.finalize()
+			{
+				return Err(ctx.get_errors().iter().take(3).map(|e| format!("{}:{}:{}", e.name.rsplit('/').next().unwrap_or(""), e.line, crate::errkind::diag_kind(&e.value))).collect::<Vec<_>>().join("; "));
+			}
+			let mut out = Vec::new();
+			for (range, data) in ctx.output().iter() {if range.get_first() == 0x100 {out.extend_from_slice(data);}}
+			Ok(out)
+		});
+		match r
+		{
+			Err(p) => cx.report.oracle_fail(input.clone(), format!("{vname}: panic: {p}")),
+			Ok(Err(why)) =>
+			{
+				cx.report.hit(&format!("e2e {vname}: diagnosed"));
+				if *must {cx.report.oracle_fail(input.clone(), format!("{vname}: refused ({why}) although the single file with the same definitions assembles; main.asm = {main:?}"));}
+			},
+			Ok(Ok(b)) =>
+			{
+				cx.report.hit(&format!("e2e {vname}: assembles"));
+				if b != single {cx.report.oracle_fail(input.clone(), format!("{vname}: the statements emit {}, in a single file {}; main.asm = {main:?}", hex(&b), hex(&single)));}
+			},
+		}
+	}
 }
 
 fn assemble(text: &str) -> Result<Vec<u8>, String>
@@ -1764,6 +1812,7 @@ fn run_simplify_batch(cx: &mut Cx, trees: &[T])
 
 fn replay(cx: &mut Cx, input: &str)
 {
+	if let Some(e) = input.strip_prefix("U ") {check_unwritable(cx, e); return;}
 	if let Some(stmt) = input.strip_prefix("X ")
 	{
 		// statement text: `<.name | name> <expr>;`
@@ -1875,6 +1924,72 @@ fn run_table_stream(cx: &mut Cx)
 	}
 }
 
+/// expressions that contain the magnitude 2^63 as a LITERAL (`U <expression>`): it does not fit a signed 64-bit integer, so no
+/// value may come out of any of them — in particular not the wrapped `x - (-2^63)` behind a binary minus; a diagnostic is required
+fn check_unwritable(cx: &mut Cx, expr: &str)
+{
+	let input = format!("U {expr}");
+	cx.report.case(None);
+	cx.report.hit("text: literal 2^63 in an expression");
+	match guarded(|| run_text(&format!(".du32 {expr};")))
+	{
+		Err(p) => cx.report.oracle_fail(input.clone(), format!("panic: {p}")),
+		Ok(Err(_)) => (),   // not even parsed: fine
+		Ok(Ok(parsed)) =>
+		{
+			for (which, o) in [("simplify", &parsed.simp), ("evaluate", &parsed.eval)]
+			{
+				if let Out::Ok{tree: T::C(v), ..} = o
+				{
+					cx.report.oracle_fail(input.clone(), format!("{which} turns an expression containing the literal 2^63 (not a signed 64-bit integer) into the value {v}"));
+				}
+				if let Out::Panic(p) = o {cx.report.oracle_fail(input.clone(), format!("{which} panicked: {p}"));}
+			}
+		},
+	}
+	for stmt in [format!(".du32 (({expr}) >> 32) & 0xFFFFFFFF;"), format!(".du32 ({expr}) & 0xFFFFFFFF;"), format!(".const c, {expr};\n.du8 1;")]
+	{
+		match guarded(|| assemble(&format!(".addr 0;\n{stmt}\n")))
+		{
+			Err(p) => cx.report.oracle_fail(input.clone(), format!("assembling `{stmt}` panicked: {p}")),
+			Ok(Ok(bytes)) => cx.report.oracle_fail(input.clone(), format!("`{stmt}` assembles without a diagnostic and emits {}", hex(&bytes))),
+			Ok(Err(_)) => (),
+		}
+	}
+}
+
+fn run_unwritable(cx: &mut Cx)
+{
+	let lits = ["9223372036854775808", "0x8000000000000000", "0X8000000000000000", "0o1000000000000000000000", "0b1000000000000000000000000000000000000000000000000000000000000000",
+		"0009223372036854775808", "0x0008000000000000000"];
+	let lefts = ["-1", "-5", "-9223372036854775807", "0", "1", "5", "x", "(-1)", "(0 - 1)", "-(1)", "!0", "-1 * 1", "(-1 - 0)"];
+	let mut n = 0u64;
+	for lit in lits
+	{
+		let mut forms: Vec<String> = vec![lit.to_owned(), format!("-{lit}"), format!("- {lit}"), format!("-/* c */{lit}"), format!("--{lit}"), format!("-(-{lit})"), format!("(-{lit})"), format!("-({lit})"),
+			format!("!-{lit}"), format!("-{lit} % 10"), format!("-{lit} + 1"), format!("1 + -{lit}"), format!("0 - -{lit}"), format!("-1 * -{lit}"), format!("-{lit} / -1"),
+			format!("({lit})"), format!("1 + {lit}"), format!("1 * {lit}"), format!("0 & {lit}"), format!("1 << {lit}"), format!("f({lit})"), format!("f(1, -{lit})")];
+		for l in lefts
+		{
+			forms.push(format!("{l} - {lit}"));
+			forms.push(format!("{l}-{lit}"));
+			forms.push(format!("{l} -\t{lit}"));
+			forms.push(format!("({l} - {lit}) >> 32"));
+			forms.push(format!("{l} - {lit} - 1"));
+			forms.push(format!("{l} - -{lit}"));
+			forms.push(format!("{l} + -{lit}"));
+		}
+		for f in forms
+		{
+			let with_x = f.contains('x');
+			let text = if with_x {f.replace('x', "(-3)")} else {f};
+			check_unwritable(cx, &text);
+			n += 1;
+		}
+	}
+	cx.report.hit_n("text: expressions with the literal 2^63", n);
+}
+
 fn run_c07(cx: &mut Cx)
 {
 	cx.report.rule = "every binary operator at every pair of 40 boundary operands (40x40x10, exhaustive) and negate / not at each; \
@@ -1910,6 +2025,7 @@ must emit the little-endian value (or a diagnostic when the value is an error); 
 	for t in trees.iter().skip(16000).step_by(20011).take(8) {cx.report.sample(format!("{} -> {}", t.text(), real_simplify(t).simp_text()));}
 	run_simplify_batch(cx, &trees);
 	run_text_stream(cx);
+	run_unwritable(cx);
 	run_table_stream(cx);
 }
 
